@@ -77,6 +77,13 @@ PROPS = {
         "rule": "one evaluation = one proving request on a faulty host: the value stored at a seeded witness-allocation instant k is corrupted (same menu as C02) and everything computed afterwards proceeds honestly, or one operand of one arithmetic row is re-wired to a fresh witness with another value (twin: rows hold, a compiled copy constraint breaks); the unsatisfied-circuit check stays on. Oracle: the independent row-by-row evaluator RM-rows (each identity component of the arithmetic / range / logic / fixed-base / curve-addition widgets separately, next-row wires cyclic over the padded domain, compiled copy constraints value-wise) on the snapshot of the faulted instance against the compiled layout: satisfied => Prover::prove is Ok and the proof is accepted by the real and the reference verifier; violated => Err(CircuitUnsatisfied); other row count => Err(InvalidCircuitSize); synthesis error => that error; never a panic. Programs include raw rows with arbitrary selector combinations and a selected row on the last row of a full domain. Thorough tier: for every 8th program with <= 300 witnesses every allocation instant x 8 fixed corruption kinds is enumerated. Non-trivial = the fault changed a stored value (or a twin).",
         "assumptions": ["RM-rows treats each identity component separately; the prover combines them with random separation challenges, so the two can differ only with probability ~2^-250", "RM-rows (sim/plonksim/src/rm_rows.rs) and RM-verify are the trusted base"],
     },
+    "C06": {
+        "level": "exploration",
+        "runs": {"quick": 240, "thorough": 6000},
+        "budget_s": {"quick": 400, "thorough": 3000},
+        "rule": "one evaluation = one check on a proof computed under a scripted RNG: (a) the call log of the RNG seam during Prover::prove is exactly 14 x fill_bytes(64) and no draw happens before circuit synthesis finished; (b) for each of the 14 draws the proof is recomputed with that single draw replaced by draw + D and the first proof element that may move is compared with D x [mask slot] computed from SRS points: a wire slot moves exactly one of the four wire commitments by D[X^(n+i) - X^i] (i in 0,1), a z slot leaves the wire commitments unchanged and moves z_comm by D[X^(n+i) - X^i] (i in 0,1,2), a quotient slot leaves wire and z commitments unchanged and moves two adjacent quotient-share commitments by +D[X^n] and -D[1]; the map draw -> slot must be a bijection onto the 14 slots (draw order not prescribed); (c) with that bijection, the witness snapshot of the proving run and beta, gamma, z re-derived by the reference transcript, the 8 wire / z evaluations equal the barycentric evaluation of the unmasked witness column (or of the permutation accumulator recomputed from the compiled wiring) plus the prescribed mask (b0 + b1 x (+ b2 x^2)) Z_H(x) at x = z or z*omega; (d) two proofs of one witness under scripts that differ in every draw share none of the 11 commitments and none of the 8 wire / z evaluations. Non-trivial = every substitution, opening and disjointness check.",
+        "assumptions": ["SRS points are read from PublicParameters::to_var_bytes(); RM-verify's transcript re-derives the challenges", "domain sizes n <= 64 mostly, 128..1024 in a share of the runs"],
+    },
     "C07": {
         "level": "exploration",
         "runs": {"quick": 6000, "thorough": 200000},
